@@ -327,3 +327,30 @@ def r5(rr, repo):
                 else:
                     rr.violated('a client is dropped from the wait set without CLOSE or connection timeout', za.mod, e.node, witness=p.pc_text(e.pc_len)[-300:], key='del-other')
     rr.floor('kinds of client removal reached (close, timeout)', len(seen), 2, za.mod, za.S_poll)
+
+
+@rule('C04.R6', 'request identity: every request carries the per-connection unique id and the publisher keys its wait set by client id + unique id, so one consumer cannot answer for another')
+def r6(rr, repo):
+    za = anchors(repo)
+    ev = za.ev()
+    ps = ev.run(za.RS_send_push.body)
+    rr.paths += len(ps)
+    n = 0
+    for p in ps:
+        sends = [e for e in p.events if e.kind == 'call' and e.term.endswith('.send_multipart')]
+        for e in sends:
+            n += 1
+            st = [s for s in p.events if s.kind == 'store' and re.search(r"\['uid'\]$", s.term) and p.events.index(s) < p.events.index(e)]
+            rr.ob("send_push stamps the message with self.unique_id before sending it", bool(st) and st[-1].args[0] == 'self.unique_id', za.mod, e.node, key='uid-stamped')
+    rr.floor('send sites in send_push', n, 1, za.mod, za.RS_send_push)
+    uid = [e for p in za.paths('rs_init') for e in p.events if e.kind == 'store' and e.term == 'self.unique_id']
+    rr.ob('the unique id is random per Sender object', bool(uid) and uid[0].args[0].startswith('rndstr('), za.mod, uid[0].node if uid else za.RS_init, witness=uid[0].args[0] if uid else '', key='uid-random')
+    k = 0
+    for p in za.paths('poll'):
+        for e in p.events:
+            if e.kind == 'store' and e.term.startswith('self.clients['):
+                k += 1
+                key = e.term[len('self.clients['):-1]
+                ok = "['cid']" in key and ".get('uid'" in key and '+' in key
+                rr.ob("the wait set is keyed by env['cid'] + env.get('uid', '')", ok, za.mod, e.node, witness=key[-120:], key='keyed-by-cid-uid')
+    rr.floor('client stores in poll_recv', k, 1, za.mod, za.S_poll)
